@@ -473,7 +473,10 @@ def _stubs():
 
 def _digest(a):
     import numpy
-    a = numpy.ascontiguousarray(numpy.asarray(a))
+    a = numpy.asarray(a)
+    if a.dtype == object:        # a frame with an object column: the bytes of an object array are addresses, not values
+        a = numpy.array([[repr(v) for v in row] for row in a.tolist()]) if a.ndim == 2 else numpy.array([repr(v) for v in a.tolist()])
+    a = numpy.ascontiguousarray(a)
     return hashlib.sha256(a.tobytes() + str(a.shape).encode() + str(a.dtype).encode()).hexdigest()
 
 
@@ -742,6 +745,9 @@ def _check_corr(cfg):
     for kind in ("array", "frame"):
         # "a DataFrame and its array": the array is the frame's own `.values` (same numbers, same memory layout)
         data = frame0.values.copy(order="K") if kind == "array" else frame0.copy()
+        if kind == "frame" and cfg.get("object_column") is not None and cfg["object_column"] < d:
+            # a numeric column stored with dtype object (Python numbers): still one of the variables of the table
+            data[cols[cfg["object_column"]]] = data[cols[cfg["object_column"]]].astype(object)
         h0 = _digest(data if kind == "array" else data.values)
         with warnings.catch_warnings():
             warnings.simplefilter("ignore")
@@ -870,6 +876,8 @@ def _corr_configs(ctx, count):
                "integers": rng.random() < 0.3, "int_dtype": rng.random() < 0.5,
                "constant": [],
                "collinear": [(0, d - 1)] if (d >= 2 and rng.random() < 0.3) else []}
+        if rng.random() < 0.15:
+            cfg["object_column"] = rng.randrange(d)
         if d >= 2 and rng.random() < 0.3 and not (cfg["integers"] and cfg["int_dtype"]):
             cfg["constant"] = [rng.randrange(d)]        # the constant 2.5 is not an integer
         out.append(cfg)
